@@ -17,6 +17,8 @@ Decides (for every execution through the analysed text):
      to an error.
   f. lockfile writes: who may call the setters, under which guards, with which
      bytes.
+  g. LoaderChecksum::gen is SHA-256 over exactly its argument; check_source
+     accepts exactly on equality with it.
 """
 from .lib import *
 
@@ -444,6 +446,26 @@ def run(F, R, tier):
         R.ob("C05-f", "manifest checksum = manifest's own lockfile checksum or sha256 of the parsed bytes", ok,
              "checksum_for_locker is `%s`" % expr_text(val), where(t))
     R.ob("C05-f", "checksum_for_locker computation found", found, "`let checksum_for_locker = <flag>.then(..)` not found", q["file"])
+
+    # ---------------- C05-g ------------------------------------------------
+    gen = F.body("source::LoaderChecksum::gen")
+    types_ = {F.ty(n) or "" for n in gen["_nodes"]}
+    upd = [n for n in gen["_nodes"] if n.get("k") == "MethodCall" and n["name"] == "update"]
+    ok = any("Sha256" in t or "CoreWrapper<sha2" in t for t in types_) and len(upd) == 1 and peel_value(upd[0]["args"][0]).get("lid") == gen["body"]["params"][0].get("lid") and any(n.get("k") == "MethodCall" and n["name"] == "finalize" for n in gen["_nodes"])
+    R.ob("C05-g", "a checksum is the SHA-256 of exactly the given bytes", ok, "LoaderChecksum::gen no longer hashes its argument with Sha256 (update(source) + finalize)", gen["file"])
+    cs = F.body("source::LoaderChecksum::check_source")
+    g_ = [n for n in cs["_nodes"] if callee_matches(n, ["source::LoaderChecksum::gen"])]
+    cmpn = [n for n in cs["_nodes"] if n.get("k") == "Binary" and n["op"] in ("==", "!=")]
+    vals = return_values(F, cs)
+    oks = [v for v in vals if ctor_of(v) == "std::result::Result::Ok"]
+    errs = [v for v in vals if ctor_of(v) == "std::result::Result::Err"]
+    ok = len(g_) == 1 and peel_value(g_[0]["args"][0]).get("lid") == cs["body"]["params"][1].get("lid") and len(cmpn) == 1 and len(oks) == 1 and len(errs) == 1
+    if ok:
+        gg = guards_at(F, oks[0])
+        ok = any(x.kind == "cond" and x.node is cmpn[0] and x.pol == (cmpn[0]["op"] == "==") for x in gg)
+        sides = [peel_value(cmpn[0]["l"]), peel_value(cmpn[0]["r"])]
+        ok = ok and any(any(y is g_[0] or is_within(g_[0], y) for y in through_locals(sd)) for sd in sides) and any(sd.get("k") == "Field" and sd["field"] == "0" for sd in sides)
+    R.ob("C05-g", "check_source accepts exactly when the stored checksum equals the hash of the given bytes", ok, "check_source no longer compares self.0 with gen(source) / Ok and Err edges changed", cs["file"])
 
     R.analysed.update({"loader_call_sites": len(sites), "load_options_literals": n_lits, "functions_sliced_through": sorted(S.visited_fns)})
 
